@@ -361,6 +361,122 @@ def h_account(ctx, n_acc, which, scenario='honest', twin=None, extra_cur=False):
         ctx.require(not _raises(lambda: CP.check_proof(p1, root_hash)), 'the block proof cell is a valid Merkle proof of the block')
 
 
+def h_shard(ctx, scenario='honest', shape='leaf', which=0, n_wc=1, twin=None):
+    """check_shard_proof: a masterchain block (real header: seqno, workchain -1) whose Merkle update commits to a masterchain
+    state whose McStateExtra lists the shard blocks; the claimed shard block is accepted exactly when its root hash is the one
+    of a ShardDescr of its workchain in the state that the block commits to"""
+    from harness import C16c
+    from harness import C16 as M16
+    from specs.tlbschema import Chooser, W as TW, gen_type
+    ch = Chooser(ctx, 3, None, 1)
+    # --- masterchain state with custom:McStateExtra (shard hashes of workchain 0 in a BinTree of the given shape)
+    w = TW().u(0x9023afe2, 32).i(ctx.sint('global_id', 32), 32)
+    w.bits('00').u(0, 6).i(-1, 32).u(1 << 63, 64)
+    mc_seqno = ctx.uint('mc_seqno', 32)
+    w.u(mc_seqno, 32).u(0, 32).u(ctx.uint('utime', 32), 32).u(ctx.uint('lt', 64), 64).u(0, 32)
+    oq = SC(ORD, ctx.bitstr('outq', 30), [])
+    accs = SC(ORD, ctx.bitstr('accs', 33), [])
+    grp = SC(ORD, ctx.bitstr('grp', 138), [])
+    wc_ = TW().u(0xcc26, 16)
+    sh = C16c.shard_hashes(ch, wc_, n_wc, shape)
+    cfg_addr = ctx.bytes_('cfgaddr', 32)
+    cfg_dict = D.encode(D.build([(format(0, '032b'), SC(ORD, ctx.bitstr('cfg0', 9), []))]), 32, lambda c: ('', [c]))
+    wc_.bytes_(cfg_addr).ref(cfg_dict)
+    # ^[ flags:(## 16) validator_info:ValidatorInfo prev_blocks:OldMcBlocksInfo after_key_block:Bool last_key_block:(Maybe ExtBlkRef) ... ]
+    ggw = TW().u(0, 16)
+    gen_type(ch, 'ValidatorInfo', ggw, 'vi', M16.HOOKS)
+    ggw.bits('0')
+    gen_type(ch, 'KeyMaxLt', ggw, 'kml', M16.HOOKS)
+    ggw.bits('0').bits('0')
+    gg = ggw.cell()
+    wc_.ref(gg)
+    M16.h_cc(ch, wc_, 'gb')
+
+    def state(proof_form):
+        w2 = TW()
+        w2.b = w.b
+        p = (lambda c: prune(c, 1)) if proof_form else (lambda c: c)
+        extra = TW()
+        extra.b = wc_.b
+        extra.r = list(wc_.r)       # McStateExtra itself stays whole (its parser reads the config and the flags group unconditionally)
+        w2.ref(p(oq)).u(0, 1).ref(p(accs)).ref(p(grp)).bits('1').ref(extra.cell())
+        return warm(w2.cell())
+    new_state, new_state_proof = state(False), state(True)
+    # --- masterchain block with a real header
+    wi = TW().bits(TS_tag())
+    wi.u(ctx.uint('version', 32), 32).bits('0000').bits('000').bits('0').u(0, 8)
+    hdr_seqno = mc_seqno if scenario != 'seqno_mismatch' else ctx.uint('hdr_seqno', 32)
+    if scenario == 'seqno_mismatch':
+        ctx.assume(Not(hdr_seqno == mc_seqno))
+    wi.u(hdr_seqno, 32).u(0, 32)
+    hdr_wc = -1 if scenario != 'not_masterchain_header' else 0
+    wi.bits('00').u(0, 6).i(hdr_wc, 32).u(1 << 63, 64)
+    for n in (32, 64, 64, 32, 32, 32, 32):
+        wi.u(ctx.uint(f'hdr{n}_{len(wi.b)}', n), n)
+    wp = TW()
+    gen_type(ch, 'ExtBlkRef', wp, 'prev', M16.HOOKS)
+    wi.ref(wp.cell())
+    info = wi.cell()
+    vf = SC(ORD, ctx.bitstr('vf', 16), [])
+    extra_c = SC(ORD, ctx.bitstr('extra', 24), [])
+    old_state = SC(ORD, ctx.bitstr('old', 50), [])
+    upd = merkle_update(prune(old_state, 1), prune(new_state, 1))
+    blk = warm(SC(ORD, cat_bits(bits_of_uint(0x11ef55aa, 32), ctx.bitstr('gid', 32)), [info, vf, upd, extra_c]))
+    root_hash = cell_hash(blk, 0)
+    p1 = to_real(warm(block_proof(blk, prune_parts=(1, 3))))
+    shown_state = new_state_proof
+    if scenario == 'other_state':
+        # a well-formed state proof of ANOTHER state (one data bit of the state differs): its hash is not the committed one
+        w_alt = TW()
+        w_alt.b = cat_bits(new_state_proof.bits[:40], bits_of_uint(uint_of_bits(new_state_proof.bits[40:48]) ^ ctx_nonzero(ctx, 'sdelta', 8), 8), new_state_proof.bits[48:])
+        shown_state = warm(SC(ORD, w_alt.b, list(new_state_proof.refs)))
+    p2 = to_real(warm(merkle_proof(shown_state)))
+    install = __import__('harness.boc_common', fromlist=['install_crc_stub']).install_crc_stub
+    install(ctx)
+    boc = _two_roots(ctx, p1, p2)
+    file_hash = ctx.bytes_('file_hash', 32)
+    leaves = sh[0]
+    target = leaves[which % len(leaves)]
+    rh_bits = target['root_hash']
+    shard_root = bytes_of_bits(rh_bits) if not isinstance(rh_bits, (bytes, C.SymBytes)) else rh_bits
+    if scenario == 'unknown_shard_block':
+        shard_root = ctx.bytes_('claimed_shard_root', 32)
+        for lf in leaves:
+            r = lf['root_hash']
+            ctx.assume(Not(shard_root == (bytes_of_bits(r) if not isinstance(r, (bytes, C.SymBytes)) else r)))
+    claimed_mc_root = root_hash
+    if scenario == 'other_block_hash':
+        claimed_mc_root = ctx.bytes_('claimed_root', 32)
+        ctx.assume(Not(claimed_mc_root == root_hash))
+    mc_id = BlockIdExt(-1, None, mc_seqno if not isinstance(mc_seqno, int) else mc_seqno, claimed_mc_root, file_hash)
+    shard_id = BlockIdExt(0 if scenario != 'other_workchain' else 5, None, 77, shard_root, ctx.bytes_('shard_file_hash', 32))
+
+    def run():
+        return CP.check_shard_proof(boc, mc_id, shard_id)
+    if scenario == 'honest':
+        if twin == 'expect_reject':
+            ctx.require(_raises(run), 'twin')
+            return
+        ok = True
+        try:
+            got = run()
+        except Exception:
+            ok = False
+        ctx.require(ok, 'shard proof: the shard block listed in the committed masterchain state is accepted')
+    else:
+        ctx.require(_raises(run), {'unknown_shard_block': 'shard proof: a shard block that the committed state does not list is rejected',
+                                   'other_block_hash': 'shard proof: another masterchain block hash is rejected',
+                                   'other_state': 'shard proof: a state that is not the one the block commits to is rejected',
+                                   'seqno_mismatch': 'shard proof: a header with another sequence number is rejected',
+                                   'not_masterchain_header': 'shard proof: a header of another workchain is rejected',
+                                   'other_workchain': 'shard proof: a shard block of a workchain the state does not list is rejected'}[scenario])
+
+
+def TS_tag():
+    from specs import tlbschema as TS
+    return TS.tagbits('#9bc7a987')
+
+
 def _two_roots(ctx, a, b):
     """a bag of cells with two roots (built by the specification's encoder)"""
     from specs import bocspec
@@ -429,11 +545,21 @@ def instances(tier, seed):
     for variant in range(6):
         for sc in ('honest', 'other_hash', 'mutated'):
             yield 'h_nested', dict(variant=variant, scenario=sc)
+    for shape, n_leaves in (('leaf', 1), (['leaf', 'leaf'], 2), ([['leaf', 'leaf'], 'leaf'], 3)):
+        if tier == 'quick' and n_leaves == 3:
+            continue
+        for which in range(n_leaves):
+            yield 'h_shard', dict(scenario='honest', shape=shape, which=which, n_wc=1 + which % 2)
+        for sc in ('unknown_shard_block', 'other_block_hash', 'other_state', 'seqno_mismatch', 'not_masterchain_header', 'other_workchain'):
+            if tier == 'quick' and (n_leaves == 1) != (sc in ('seqno_mismatch', 'not_masterchain_header', 'other_workchain')):
+                continue
+            yield 'h_shard', dict(scenario=sc, shape=shape, which=n_leaves - 1)
 
 
 def twins(tier, seed):
     yield 'h_generic', dict(tree='pair', prune=['t0'], scenario='honest', twin='expect_reject')
     yield 'h_account', dict(n_acc=2, which=1, scenario='honest', twin='expect_reject')
+    yield 'h_shard', dict(scenario='honest', shape=['leaf', 'leaf'], which=1, twin='expect_reject')
 
 
 INSTANCE_TIMEOUT = {'quick': 200, 'thorough': 900}
@@ -442,9 +568,11 @@ BOUNDS = {
                       '256-bit expected hash, any non-zero change / lengthening / shortening / added / dropped / swapped reference of an unpruned cell with an '
                       'attacker-chosen stored hash, any substituted pruned hash, non-proof roots (quick: 4 seeded antichains x 2 cells per tree)',
     'nested Merkle cells': '6 trees with an inner Merkle proof / update cell, sub-trees below it pruned at level 2 (masks 0b10, 0b11)',
+    'shard proofs': 'masterchain block with a real header and a Merkle update, masterchain state with McStateExtra listing 1..3 shard blocks of workchain 0 in a BinTree (contents symbolic); '
+                    'claimed shard block listed / not listed / of another workchain; other block hash; another state; header of another seqno or workchain',
     'account proofs': 'shard states with 1..3 accounts (ids concrete, everything else symbolic), the other accounts pruned; block with a Merkle update; balances with and without an extra currency in the dictionary augmentation; claimed state '
                       'genuine / different / pruned-branch carrier; other block hash; tampered state',
 }
-OUTSIDE = ['check_shard_proof (needs McStateExtra/ShardHashes encodings)', 'trees of more than 6 cells', 'hash collisions (assumed away: SHA-256 as an injective function)']
+OUTSIDE = ['trees of more than 6 cells', 'hash collisions (assumed away: SHA-256 as an injective function)']
 STUBS = ['hashlib.sha256: injective uninterpreted function', 'crc32c inside the BoC code: memoised uninterpreted function']
 ASSUMPTIONS = ['specs/cellspec.py (pruned branches, Merkle proofs/updates), specs/dictspec.py, specs/bocspec.py']
